@@ -26,7 +26,7 @@ for _p in PROPS.values():
     _p["technique"] = "TLA+ model (Log.tla) + TLC exhaustive check + gate-scheduled replay of TLC behaviours into the real broker + TLC trace validation (observation and conformance layers)"
 HOOK_EVENTS = ["Append", "FlushWait", "FlushPrepare", "PubRead", "FlushFail", "FlushCommit", "Restore"]
 GATES = ["append", "flush", "upseg", "upidx", "updone", "pubread", "publish"]
-MBS = [0, 1, 80, 200]
+MBS = [0, 9, 80, 200]
 QUICK_MC = {"C01": ["MC_Log_quick.cfg", "MC_Log_inline_quick.cfg"], "C02": ["MC_Log_quick.cfg", "MC_Log_shapes_quick.cfg"],
             "C03": ["MC_Log_read_quick.cfg", "MC_Log_crashread_quick.cfg"], "C04": ["MC_Log_read_quick.cfg", "MC_Log_crashread_quick.cfg"],
             "C05": ["MC_Log_quick.cfg", "MC_Log_inline_quick.cfg"], "C06": ["MC_Log_quick.cfg", "MC_Log_crashread_quick.cfg"]}
@@ -81,6 +81,53 @@ def gen_schedules(ctx, d):
             scheds.append({"inline": inline, "interval": interval, "cache": (j % 2 == 0), "mbs": MBS, "steps": h})
             labels.append("sim:" + cfg[8])
     return scheds, labels, sorted(devs)
+
+
+TRACE_CFG = """CONSTANTS
+ Producers = {"p1","p2","p3"}
+ K = 1000
+ Shapes <- ShAll
+ MaxFaults = 1000
+ MaxCrashes = 1000
+ InlineAt = %d
+ Interval = %d
+ MBs = {0}
+ FixRestore = TRUE
+ FixPublish = TRUE
+ FixMonotone = TRUE
+ FixReadOrder = TRUE
+ FixRange = TRUE
+ FixValidate = TRUE
+ DevNoWait = FALSE
+ DevCommitBeforeIndex = FALSE
+ DevRestoreKeepsOffset = FALSE
+ DevOrphanNotSkipped = FALSE
+ DevOrphanAlwaysSkipped = FALSE
+ DevNoFlushOnAck = FALSE
+INIT TInit
+NEXT TNext
+POSTCONDITION Reached
+CHECK_DEADLOCK FALSE
+"""
+
+
+def conformance(ctx, scheds, runs):
+    """Layer C, one TLC start per (InlineAt, Interval) group."""
+    conf = {"accepted": 0, "rejected_groups": 0, "first_rejection": None, "lines": 0}
+    groups = sorted({(s["inline"], s["interval"]) for s in scheds})
+    for (inl, itv) in groups:
+        sub = [r for i, run in enumerate(runs) if (scheds[i]["inline"], scheds[i]["interval"]) == (inl, itv) for r in run]
+        reached, total, res = layers.conform(ctx, DIR, "MC_Trace_Log.tla", "Trace_Log.cfg", sub, name="conf-%d-%d" % (inl, itv), cfg_text=TRACE_CFG % (inl, itv), timeout=1800)
+        conf["lines"] += total
+        if reached == total:
+            conf["accepted"] += sum(1 for s in scheds if (s["inline"], s["interval"]) == (inl, itv))
+        else:
+            conf["rejected_groups"] += 1
+            if conf["first_rejection"] is None:
+                nxt = sub[reached] if reached < len(sub) else None
+                conf["first_rejection"] = {"group": [inl, itv], "consumed": reached, "of": total,
+                                           "next_line": {k: v for k, v in (nxt or {}).items() if k != "reads"}}
+    return conf
 
 
 def nontrivial(s):
